@@ -14,8 +14,8 @@ func init() {
 		Check:     "bad_ids",
 		PropCheck: "c07_prop_bad_ids",
 		Gen:       func(tier string, r *rand.Rand) []Case { return simGen(tier, r, "C07") },
-		Run:       simRunJSON,
-		Rule:      "network simulations of Feldman-VSS-Qual and Joint-Feldman (n real instances for the honest participants, <= t scripted Byzantine participants, random admissible delivery orders with order hints): dealer faults, complainer faults, > t / exactly t complaints, unsolicited answers, random mixtures; non-trivial if an event was emitted; distinct by scenario",
+		Run:       simRunBehave,
+		Rule:      "network simulations of Feldman-VSS-Qual and Joint-Feldman (n real instances for the honest participants, <= t scripted Byzantine participants, random admissible delivery orders with order hints): dealer faults, complainer faults, > t / exactly t complaints, unsolicited answers, random mixtures; audit families as in C08 (defect position inside the vector, wrong-then-right / duplicated shares and answers, colluding complainer answered in every way, per-receiver defects, polynomial with a root at a participant's point, two faulty dealers, two dealers with one polynomial, t >= n/2, n = 254); runner-side: when all honest participants return the same keys the key OBJECTS are used: each private share signs verifiably under its public share as returned to another participant, two different sets of t+1 shares reconstruct the same threshold signature and it verifies under the group key; byte-slice arguments unmodified; non-trivial if an event was emitted; distinct by scenario",
 		Shard:     12,
 	})
 }
